@@ -36,6 +36,19 @@ def find_enum(name):
     raise KeyError(name)
 
 
+class Opaque:
+    """stands for a context value that is not JSON-like (VOther in the model): only its truthiness is modelled"""
+
+    def __init__(self, truthy):
+        self.truthy = truthy
+
+    def __bool__(self):
+        return self.truthy
+
+    def __repr__(self):
+        return f"<opaque truthy={self.truthy}>"
+
+
 def build(v):
     if isinstance(v, list):
         return [build(x) for x in v]
@@ -70,7 +83,9 @@ def build(v):
             for k, x in fields.items():
                 setattr(obj, k, x)
             return obj
-        if "__opaque__" in v or "__other__" in v:
+        if "__other__" in v:
+            return Opaque(bool(v.get("truthy", True)))
+        if "__opaque__" in v:
             return None
         return {k: build(x) for k, x in v.items()}
     return v
